@@ -274,8 +274,8 @@ type config struct {
 	Table *table
 
 	// allow list
-	AllowNets     []netip.Prefix              // any peer
-	AllowPeerNets map[int][]netip.Prefix      // only that peer (index)
+	AllowNets     []netip.Prefix         // any peer
+	AllowPeerNets map[int][]netip.Prefix // only that peer (index)
 	allowMaddrs   []ma.Multiaddr
 
 	// per-subnet caps as passed to the options (nil = option not given -> library default)
